@@ -364,4 +364,35 @@ def specMetrics (sqrtFn : Rat → Rat) (riskFree : Rat) (ps : List Exit) (maxDra
     sortino := specSortino riskFree mean (specStdDev sqrtFn (lossReturns ps))
     calmar := specCalmar riskFree mean maxDrawdown }
 
+/-! ## Where the code panics — the checked run
+
+`Gen.updateFromPosition` above is total: on a closed position whose cost of investment
+`price_entry_average * quantity_abs_max` is zero it computes `pnl / 0 = 0` (Lean's convention) and
+goes on. The code does not: `calculate_pnl_return` (position.rs:549-555) is a plain `Decimal` `/`,
+which panics ("Division by zero") — after `pnl_raw += ..` (pnl.rs:47), before anything else is
+updated; the generator is lost with the unwinding. The definitions below make that outcome explicit:
+`none` = the code panicked. The drivers run these (they print `panic` exactly when the result is
+`none`), and the theorems about "what the code reports" are stated of them
+(`Props/C16M.lean` §7). No other division by zero is reachable in `update_from_position` /
+`generate` (`trading_period` is clamped to ≥ 1 s; the Welford updates divide by a count ≥ 1; every
+other division is a `checked_div` or sits behind a zero test); the panics of the `Decimal` RANGE
+(`+` / `−` / `×` / `÷` overflow) are outside the model (DESIGN §3, `props/C16M.py` ASSUMPTIONS). -/
+
+/-- `update_from_position` panics on this position: zero cost of investment
+(`TearSheet.Closed.panics`: `price_entry_average * quantity_abs_max == 0`). -/
+def Exit.panics (p : Exit) : Bool := p.closed.panics
+
+/-- `TearSheetGenerator::update_from_position` with the panic explicit. -/
+def Gen.updateChecked (sqrtFn : Rat → Rat) (g : Gen) (p : Exit) : Option Gen :=
+  if p.panics then none else some (g.updateFromPosition sqrtFn p)
+
+/-- A whole history through `update_from_position`, oldest first; `none` as soon as one call
+panics (the later positions are never seen). -/
+def Gen.runChecked (sqrtFn : Rat → Rat) : Gen → List Exit → Option Gen
+  | g, [] => some g
+  | g, p :: ps =>
+    match g.updateChecked sqrtFn p with
+    | none => none
+    | some g' => Gen.runChecked sqrtFn g' ps
+
 end BarterModel.Metrics
